@@ -129,7 +129,7 @@ def lean_obligations(prop, tier):
             res["driver_ok"] = False
         else:
             res["driver_ok"] = True
-        ok, out, secs = leanrun.lake_build(["MirosModel.Props." + prop])
+        ok, out, secs = leanrun.lake_build(leanrun.prop_modules(prop))
         res["build_s"] = round(secs, 1)
         if not ok:
             if pinned and not tr.get("failures"):
@@ -157,7 +157,7 @@ def lean_obligations(prop, tier):
                 return res
         res["discharged"] = len(theorems)
         if tier == "thorough":
-            okc, outc = leanrun.leanchecker(["MirosModel.Props." + prop])
+            okc, outc = leanrun.leanchecker(leanrun.prop_modules(prop))
             res["leanchecker"] = "ok" if okc else outc[-500:]
             if not okc:
                 res["my_bug"] = "leanchecker rejected MirosModel.Props.%s: %s" % (prop, outc[-500:])
